@@ -7,10 +7,12 @@ CONSTANTS Kinds <- K1
  TrimThreshold = 1
  GuardGeneration = "yes"
  ShareRefs = TRUE
+ OnFetchError = "error"
  MaxCalls = 3
  MaxVer = 1
  MaxInv = 1
  MaxTrim = 0
+ MaxFail = 0
 INVARIANTS PrivateCopies
 VIEW View
 SYMMETRY ReqSym
